@@ -16,11 +16,17 @@ and compared inside Coq (vm_compute, vlib.run_cases) with the model computed fro
                       (what plan_deterministic allows)
 Uuids are renamed canonically: 2*name_index (+1 for the requested copy), so nothing depends on uuid4 or on plan order.
 
-check_plans(specs, rep_prefix) -> list of disagreements (dicts: spec, stage, what); LAST_INFO has counters, the
-classification of every case (model_wf, group_dag) and LAST_INFO["deadlock_specs"]: the specs inside the known-defect
-domain of theorem PlannerA_plan_wf_refuted (accepted plan with a cyclic wait-for relation; the real plan equals the
-model's, the run never returns) - to be reported under known finding DEADLOCK_KEY, they are NOT disagreements.
-`python3 -m harness.planner_a [n] [seed]` runs a self test (builds Props/PlannerA.v, compares, runs under a watchdog).
+    chk_request_outcome  the accept / reject decision computed from the request alone = the real decision
+The real prepare may REJECT a strict-fragment request (since /repo 12fe10c): ValueError "... wait for each other in a
+cycle ..." when the steps of two groups require each other.  The model predicts exactly which specs are rejected and with
+which of the two validation errors (pc_outcome: 0 accepted, 1 incomplete plan, 2 cycle); the steps are observed in all
+cases (harness-side wrappers keep the Engine and the ExecutionPlan of a failing prepare).  Any other exception, an
+accepted request the model rejects (or vice versa) and - with run_accepted > 0 - a run of an accepted plan that does not
+return are disagreements.  Nothing is a known finding here any more.
+
+check_plans(specs, rep_prefix, run_accepted=0) -> list of disagreements (dicts: spec, stage, what); LAST_INFO has counters
+and the classification of every case.  `python3 -m harness.planner_a [n] [seed]` runs a self test (builds
+Props/PlannerA.v, compares, runs accepted plans under a watchdog).
 """
 from __future__ import annotations
 
@@ -33,9 +39,11 @@ from lib import vlib
 from lib.vlib import cq_bool, cq_list, cq_nat
 
 REQ = ["MV.Model.Orch", "MV.Model.OrchCheck", "MV.Model.PlannerA"]
-STAGES = ["chk_request", "chk_graph", "chk_queue", "chk_closure", "chk_plan", "chk_request_plan"]
+STAGES = ["chk_request", "chk_graph", "chk_queue", "chk_closure", "chk_plan", "chk_request_plan", "chk_request_outcome"]
 LAST_INFO: Dict[str, Any] = {}
-DEADLOCK_KEY = "C04-cross-group-step-cycle"
+CAP: Dict[str, Any] = {}
+_cap_installed = [False]
+OUTCOME = {0: "accepted", 1: "rejected: incomplete plan", 2: "rejected: steps wait in a cycle"}
 
 
 # ------------------------------------------------------------------------------------------------------------
@@ -130,7 +138,8 @@ def gen_cross(rng: random.Random, cfw: str = "PyArrowTable") -> Dict[str, Any]:
 
 
 def spec_cross_cycle() -> Dict[str, Any]:
-    """The smallest request whose plan deadlocks: D1 = {a1 <- r, a2 <- b2}, D2 = {b1 <- a1, b2 <- r}; no feature of a group
+    """The smallest request whose steps wait for each other (rejected at prepare since /repo 12fe10c; before, the run never
+    returned): D1 = {a1 <- r, a2 <- b2}, D2 = {b1 <- a1, b2 <- r}; no feature of a group
     depends on another one of the same group, so each group is ONE step and the two steps require each other."""
     return {"groups": [
         {"name": "R0", "kind": "root", "cfw": "PyArrowTable", "cols": {"r": [1, 2, 3]}},
@@ -179,24 +188,63 @@ class Tables:
         self.request = [self.name_idx[r if isinstance(r, str) else r["name"]] for r in spec["request"]]
 
 
+def install_capture() -> None:
+    """Harness-side wrappers: remember the Engine and the ExecutionPlan of the current prepare, also when it raises."""
+    from harness.orch import install
+    install()
+    if _cap_installed[0]:
+        return
+    _cap_installed[0] = True
+    from mloda.core.core.engine import Engine
+    from mloda.core.prepare.execution_plan import ExecutionPlan
+    orig_setup = Engine.create_setup_execution_plan
+
+    def create_setup_execution_plan(self: Any, features: Any) -> Any:
+        CAP["engine"] = self
+        return orig_setup(self, features)
+    Engine.create_setup_execution_plan = create_setup_execution_plan  # type: ignore[method-assign]
+    orig_create = ExecutionPlan.create_execution_plan
+
+    def create_execution_plan(self: Any, queue: Any, graph: Any, link_trekker: Any) -> Any:
+        CAP["ep"] = self
+        return orig_create(self, queue, graph, link_trekker)
+    ExecutionPlan.create_execution_plan = create_execution_plan  # type: ignore[method-assign]
+
+
+def classify_rejection(e: BaseException) -> Optional[int]:
+    msg = str(e)
+    if isinstance(e, ValueError) and "Execution plan is incomplete" in msg:
+        return 1
+    if isinstance(e, ValueError) and "wait for each other in a cycle" in msg:
+        return 2
+    return None
+
+
 def observe(spec: Dict[str, Any]) -> Dict[str, Any]:
     """Run the real prepare and return the observation in canonical ids, or {"error": ...}."""
     from harness.universe import Universe
-    from harness.orch import install, LAST
+    from harness.orch import LAST
     from mloda.core.core.step.feature_group_step import FeatureGroupStep
-    install()
+    install_capture()
     LAST.pop("graph", None)
+    CAP.clear()
     t = Tables(spec)
     uni = Universe(spec)
     try:
+        sess = None
+        outcome = 0
         try:
             sess = uni.prepare()
         except Exception as e:  # noqa: BLE001
-            return {"error": f"prepare raised {type(e).__name__}: {str(e)[:200]}", "tables": t}
+            code = classify_rejection(e)
+            if code is None:
+                return {"error": f"prepare raised {type(e).__name__}: {str(e)[:200]}", "tables": t}
+            outcome = code
         graph = LAST.get("graph")
-        if graph is None:
-            return {"error": "no feature graph observed", "tables": t}
-        eng = sess.engine
+        eng = CAP.get("engine")
+        ep = CAP.get("ep")
+        if graph is None or eng is None or ep is None or not hasattr(ep, "execution_plan"):
+            return {"error": "feature graph / execution plan of the preparation not observed", "tables": t}
         ren: Dict[Any, int] = {}
         nodes = graph.get_nodes()
         for u in list(eng.feature_link_parents.keys()):
@@ -215,13 +263,13 @@ def observe(spec: Dict[str, Any]) -> Dict[str, Any]:
         queue = [ren[u] for u in graph.queue]
         p2c = [(ren[c], sorted(ren[p] for p in ps)) for c, ps in graph.parent_to_children_mapping.items() if ps]
         plan = []
-        for st in eng.execution_planner:
+        for st in ep.execution_plan:
             if not isinstance(st, FeatureGroupStep):
                 return {"error": f"plan contains a {type(st).__name__}", "tables": t}
             feats = list(st.features.features)
             plan.append((sorted(ren[f.uuid] for f in feats), sorted(ren[u] for u in st.required_uuids),
                          any(f.initial_requested_data for f in feats), sorted(ren[u] for u in st.children_if_root)))
-        return {"tables": t, "g": g, "queue": queue, "p2c": p2c, "plan": plan, "session": sess}
+        return {"tables": t, "g": g, "queue": queue, "p2c": p2c, "plan": plan, "session": sess, "outcome": outcome}
     finally:
         uni.dispose()
 
@@ -243,16 +291,18 @@ def cq_case(o: Dict[str, Any]) -> str:
     p2c = cq_list(f"({cq_nat(c)}, {_nl(ps)})" for c, ps in o["p2c"])
     plan = cq_list(f"({_nl(us)}, {_nl(rq)}, {cq_bool(rqd)}, {_nl(cir)})" for us, rq, rqd, cir in o["plan"])
     return (f"{{| pc_defs := {defs}; pc_req := {_nl(t.request)}; pc_g := {g}; pc_queue := {_nl(o['queue'])}; "
-            f"pc_p2c := {p2c}; pc_plan := {plan} |}}")
+            f"pc_p2c := {p2c}; pc_plan := {plan}; pc_outcome := {cq_nat(o['outcome'])} |}}")
 
 
 # ------------------------------------------------------------------------------------------------------------
 # the check
 # ------------------------------------------------------------------------------------------------------------
 
-def check_plans(specs: List[Dict[str, Any]], rep_prefix: str, keep_sessions: bool = False) -> List[Dict[str, Any]]:
+def check_plans(specs: List[Dict[str, Any]], rep_prefix: str, keep_sessions: bool = False,
+                run_accepted: int = 0, run_timeout: float = 15.0) -> List[Dict[str, Any]]:
     """Disagreements between the real planner and the model on the strict-fragment specs among `specs`.
-    rep_prefix names the scratch directory (_build/<rep_prefix>/planA_*)."""
+    rep_prefix names the scratch directory (_build/<rep_prefix>/planA_*).  run_accepted > 0: additionally run up to that
+    many accepted plans in SYNC under a watchdog; a run that does not return 'ok' is a disagreement (stage 'run')."""
     logging.disable(logging.CRITICAL)
     out: List[Dict[str, Any]] = []
     idx, obs = [], []
@@ -261,7 +311,9 @@ def check_plans(specs: List[Dict[str, Any]], rep_prefix: str, keep_sessions: boo
             continue
         o = observe(spec)
         if "error" in o:
-            out.append({"spec": spec, "stage": "observe", "what": o["error"] + " (the model plans every acyclic strict-fragment request)"})
+            out.append({"spec": spec, "stage": "observe",
+                        "what": o["error"] + " (the model: every acyclic strict-fragment request is planned with feature-group steps "
+                                             "only and either accepted or rejected with the cycle error)"})
             continue
         idx.append(i)
         obs.append(o)
@@ -269,50 +321,79 @@ def check_plans(specs: List[Dict[str, Any]], rep_prefix: str, keep_sessions: boo
     cases: List[Dict[str, Any]] = []
     if obs:
         terms = [cq_case(o) for o in obs]
+
+        def failing(name: str, checker: str, ts: List[str] = terms) -> List[int]:
+            return vlib.run_cases(rep_prefix, name, REQ, checker, ts, case_type="pcase", shard=40)[0]
         bad, ci = vlib.run_cases(rep_prefix, "planA_all", REQ, "chk_planner", terms, case_type="pcase", shard=40)
         info["coq"] = ci
-        bad_rp, _ = vlib.run_cases(rep_prefix, "planA_reqplan", REQ, "chk_request_plan", terms, case_type="pcase", shard=40)
-        not_wf = set(vlib.run_cases(rep_prefix, "planA_wf", REQ, "model_wf", terms, case_type="pcase", shard=40)[0])
-        not_dag = set(vlib.run_cases(rep_prefix, "planA_dag", REQ, "model_group_dag", terms, case_type="pcase", shard=40)[0])
-        not_ddag = set(vlib.run_cases(rep_prefix, "planA_ddag", REQ, "model_defs_group_dag", terms, case_type="pcase", shard=40)[0])
-        not_cov = set(vlib.run_cases(rep_prefix, "planA_cov", REQ, "model_req_covers", terms, case_type="pcase", shard=40)[0])
+        bad_rp = failing("planA_reqplan", "chk_request_plan")
+        bad_ro = failing("planA_reqout", "chk_request_outcome")
+        not_wf = set(failing("planA_wf", "model_wf"))
+        not_acc = set(failing("planA_acc", "model_accepted"))
+        bad_iff = failing("planA_iff", "model_accept_iff_wf")
+        not_dag = set(failing("planA_dag", "model_group_dag"))
+        not_ddag = set(failing("planA_ddag", "model_defs_group_dag"))
+        not_cov = set(failing("planA_cov", "model_req_covers"))
         stage_of: Dict[int, str] = {}
         if bad:
             # which stage failed first (re-evaluated on the failing cases only)
             sub = [terms[k] for k in bad]
             for stage in STAGES[:5]:
-                for j in vlib.run_cases(rep_prefix, "planA_diag", REQ, stage, sub, case_type="pcase", shard=40)[0]:
+                for j in failing("planA_diag", stage, sub):
                     stage_of.setdefault(bad[j], stage)
         for k in bad:
             o = obs[k]
-            out.append({"spec": specs[idx[k]], "stage": stage_of.get(k, "chk_planner"),
-                        "what": f"real planner and model differ at {stage_of.get(k, '?')}",
-                        "observed": {kk: o[kk] for kk in ("g", "queue", "p2c", "plan")}})
+            what = f"real planner and model differ at {stage_of.get(k, '?')}"
+            if stage_of.get(k) == "chk_plan":
+                what += (f" (real prepare: {OUTCOME[o['outcome']]}; model: "
+                         f"{'accepted' if k not in not_acc else 'rejected'}, or the steps differ)")
+            out.append({"spec": specs[idx[k]], "stage": stage_of.get(k, "chk_planner"), "what": what,
+                        "observed": {kk: o[kk] for kk in ("g", "queue", "p2c", "plan", "outcome")}})
         for k in bad_rp:
             if k not in bad:
                 out.append({"spec": specs[idx[k]], "stage": "chk_request_plan",
                             "what": "the plan computed from the request in canonical orders has other steps than the real plan",
                             "observed": {kk: obs[k][kk] for kk in ("g", "plan")}})
+        for k in bad_ro:
+            if k not in bad:
+                out.append({"spec": specs[idx[k]], "stage": "chk_request_outcome",
+                            "what": f"the request alone decides otherwise than the real prepare ({OUTCOME[obs[k]['outcome']]})"})
         for k in sorted(not_cov):
             out.append({"spec": specs[idx[k]], "stage": "model_req_covers",
                         "what": "model plan does not require the ancestor closure (contradicts theorem plan_req_covers)"})
-        for k in sorted(not_wf - not_dag):
-            out.append({"spec": specs[idx[k]], "stage": "model_wf",
-                        "what": "model plan not well formed although the groups form a DAG (contradicts theorem plan_wf)"})
+        for k in bad_iff:
+            out.append({"spec": specs[idx[k]], "stage": "model_accept_iff_wf",
+                        "what": "model accepts a plan that is not well formed or rejects a well-formed one (contradicts prepare_accepts_iff)"})
+        for k in sorted(not_acc - not_dag):
+            out.append({"spec": specs[idx[k]], "stage": "model_accepted",
+                        "what": "model rejects although the groups form a DAG (contradicts theorem prepare_accepts_dag)"})
         for k in sorted(not_dag - not_ddag):
             out.append({"spec": specs[idx[k]], "stage": "model_group_dag",
                         "what": "definitions form a group DAG but the graph does not (contradicts theorem request_group_dag)"})
+        n_run = 0
         for k, o in enumerate(obs):
-            cases.append({"index": idx[k], "model_wf": k not in not_wf, "group_dag": k not in not_dag,
-                          "defs_group_dag": k not in not_ddag,
-                          "steps": len(o["plan"]), "nodes": len(o["g"]),
-                          "levels": len(o["plan"]) > len({gr for _, gr, _, _, _ in o["g"]}),
-                          "session": o["session"] if keep_sessions else None})
+            c = {"index": idx[k], "model_wf": k not in not_wf, "model_accepted": k not in not_acc, "real_outcome": o["outcome"],
+                 "group_dag": k not in not_dag, "defs_group_dag": k not in not_ddag,
+                 "steps": len(o["plan"]), "nodes": len(o["g"]),
+                 "levels": len(o["plan"]) > len({gr for _, gr, _, _, _ in o["g"]}),
+                 "session": o["session"] if keep_sessions else None}
+            if o["outcome"] == 0 and n_run < run_accepted and o["session"] is not None:
+                from harness.orch import run_observed
+                n_run += 1
+                r = run_observed(o["session"], timeout=run_timeout)
+                c["run"] = r["status"]
+                if r["status"] != "ok":
+                    out.append({"spec": specs[idx[k]], "stage": "run",
+                                "what": f"SYNC run of an ACCEPTED strict-fragment plan: {r['status']} after {r['scans']} loop iterations "
+                                        f"({str(r.get('exc'))[-200:] if r['status'] == 'raised' else 'watchdog'}); theorem "
+                                        "requests_terminate says it exits normally within 2n+1 iterations"})
+            cases.append(c)
+        info["accepted"] = sum(1 for o in obs if o["outcome"] == 0)
+        info["rejected_cycle"] = sum(1 for o in obs if o["outcome"] == 2)
+        info["rejected_incomplete"] = sum(1 for o in obs if o["outcome"] == 1)
         info["model_not_wf"] = len(not_wf)
         info["group_cycle"] = len(not_dag)
-        # known-defect domain (PlannerA_plan_wf_refuted): accepted plans whose wait-for relation is cyclic; the real plan
-        # equals the model's (checked above), so the real run never returns
-        info["deadlock_specs"] = [specs[idx[k]] for k in sorted(not_wf)]
+        info["runs"] = n_run
     info["cases"] = cases
     info["disagreements"] = len(out)
     LAST_INFO.clear()
@@ -323,37 +404,25 @@ def check_plans(specs: List[Dict[str, Any]], rep_prefix: str, keep_sessions: boo
 def main(argv: List[str]) -> int:
     n = int(argv[1]) if len(argv) > 1 else 120
     seed = int(argv[2]) if len(argv) > 2 else 0
+    n_run = int(argv[3]) if len(argv) > 3 else 40
     from harness import daggen
-    from harness.orch import run_observed
     rng = random.Random(seed)
     specs = [spec_diamond_chain(), spec_cross_cycle()]
     for i in range(n):
         specs.append(daggen.gen_single_root(rng, multi_cfw=False) if i % 3 == 0 else (gen_cross(rng) if i % 3 == 1 else gen_strict(rng)))
     pr = vlib.build_props("PlannerA")
     print("Props/PlannerA.v:", "ok" if pr.ok else "BROKEN", f"{pr.discharged}/{pr.obligations} statements,", sorted(set(pr.assumptions)))
-    dis = check_plans(specs, "PlannerA", keep_sessions=True)
+    dis = check_plans(specs, "PlannerA", run_accepted=n_run, run_timeout=8.0)
     info = dict(LAST_INFO)
     cases = info.pop("cases")
-    print({k: v for k, v in info.items() if k not in ("coq", "deadlock_specs")})
+    print({k: v for k, v in info.items() if k != "coq"})
     print("steps histogram:", sorted({c["steps"]: sum(1 for d in cases if d["steps"] == c["steps"]) for c in cases}.items()))
     print("with level split:", sum(c["levels"] for c in cases), "group cycles:", sum(not c["group_dag"] for c in cases),
-          "model plan not wf:", sum(not c["model_wf"] for c in cases))
+          "group cycle but accepted:", sum((not c["group_dag"]) and c["real_outcome"] == 0 for c in cases),
+          "rejected (cycle):", sum(c["real_outcome"] == 2 for c in cases))
     for d in dis[:10]:
-        print("DISAGREEMENT", d["stage"], d["what"], d["spec"])
-    # the model's verdict against the real orchestrator: wf => terminates, not wf => never exits (watchdog)
-    wrong = 0
-    tried = 0
-    for c in cases:
-        if c["model_wf"] and tried > 25:
-            continue
-        tried += 1
-        o = run_observed(c["session"], timeout=(20.0 if c["model_wf"] else 4.0))
-        expect = "ok" if c["model_wf"] else "hang"
-        if o["status"] != expect:
-            wrong += 1
-            print("RUN MISMATCH", specs[c["index"]], "model_wf", c["model_wf"], "run", o["status"], str(o.get("exc"))[-200:])
-    print("runs checked against the model's verdict:", tried, "mismatches:", wrong)
-    return 1 if (dis or wrong or not pr.ok) else 0
+        print("DISAGREEMENT", d["stage"], d["what"], str(d["spec"])[:300])
+    return 1 if (dis or not pr.ok) else 0
 
 
 if __name__ == "__main__":
